@@ -1106,6 +1106,10 @@ def judge(pl: Plan, run2, p: Params, out: Outcome, where: str) -> None:
     """Oracle of the detection side for one applied corruption."""
     kind = pl.kind
     tag = f"{kind}/{pl.detail}" if pl.detail else kind
+    # the context a validator gap is confined to is part of its name (as for the accept side)
+    tag += "@" + (p.stream if p.stream in ("bbb", "tears") else "synthetic")
+    if p.mup_s and p.tsbd_s and p.mup_s > p.tsbd_s:
+        tag += "/mup>depth"
     if run2.abort == "wall-clock":
         out.trivial = "inconclusive-timeout"
         return
